@@ -1,4 +1,7 @@
-"""C12 finding: the output depends on the order in which a *set* of paths is iterated (PYTHONHASHSEED, and
+"""C12 finding, FIXED by 80d6c91 (`sorted(find_all_files(settings))`); on a tree with the fix every run below
+is byte-identical and demonstrate() returns False for all three keys (regression demo).
+
+Before the fix the output depended on the order in which a *set* of paths is iterated (PYTHONHASHSEED, and
 the absolute location of the project).
 
 ford/fortran_project.py find_all_files returns a set; Project.__init__ iterates it, so every project-level
@@ -7,7 +10,7 @@ list is in that order.  Consequences shown here:
   file-order-search-db     search/search_database.json lists the pages in that order (no name clash needed)
   file-order-modules-json  modules.json (externalize: true) lists the modules in that order
 Expected: identical output for every seed.  Patch: iterate `sorted(find_all_files(settings))`."""
-from findings.c12_common import runs, explain
+from findings.c12_common import runs, explain  # noqa: E402
 
 CLASH = {f"src/{c}.f90": f"module m{c}\n  integer :: x\n    !! doc of x in {c}\nend module m{c}\n" for c in "abc"}
 FOUR = {f"src/{c}.f90": f"module m{c}\n  integer :: v{c}\n    !! doc of v{c}\nend module m{c}\n" for c in "abcd"}
@@ -21,8 +24,8 @@ def demonstrate(verbose=True):
                              ("file-order-modules-json", FOUR, {"externalize": "true"})):
         if verbose:
             print(f"--- {key}: options {opts}, PYTHONHASHSEED = {seeds}")
-        needed, clean = explain(runs(files, opts, seeds), [key], verbose)
-        res[key] = key in needed and clean
+        needed, clean = explain(runs(files, opts, seeds), [], verbose)
+        res[key] = not clean          # any difference at all
     return res
 
 
